@@ -82,14 +82,21 @@ def run_once(ast, mode, fin, strict, limit=20):
 def run(ctx):
     rng = ctx.rng
     from props import funcs_common as FCm
-    from props.c05 import grammar_programs
+    from props.c05 import grammar_programs, wrapper_programs
     files = list(CORPUS) + FCm.failure_patterns(1 if ctx.tier == 'thorough' else 5)
     # every expression of the bounded grammar (all operators, subscripts, dereferences, calls, casts, nested) as a
     # statement, a right-hand side, a condition and a returned value: the syntax report must cope with all of them
     gp = grammar_programs(ctx.tier == 'thorough')
     files += gp if ctx.tier != 'thorough' else gp[::3]
+    files += wrapper_programs()
     files += ['int f(int i,int j){ return (*m)[i][j]; }', 'int f(int i){ return (*v).a[i]; }', 'int f(int i,int j){ (p + 1)[i][j]; }',
               'int f(int i,int x){ return (*fp)(x)[i]; }', 'int f(int i){ while (i) ((int*)q)[i][i]; }']
+    # loop-mode result selection: accumulators with dependents (the intersection of the choices of a variable and of
+    # its sources may be empty), if/else-if chains and shifting paths under every kind of loop
+    for i in range(ctx.budget(60, 1500)):
+        files.append((FCm.dependent_family, FCm.chain_loop, FCm.shift_loop, FCm.dependent_family)[i % 4](rng))
+    files += ['int f(int n,int s,int t,int v){ for (int i = 0; i < n; i++) { s = s + t; v = s; } return v; }',
+              'int g(int n,int a,int c,int d){ int i; for (i = 0; i < n; i++) { if (a) { a = d + d; } else { d = c - d; } } return a; }']
     for i in range(ctx.budget(70, 2500)):
         nf = rng.choice([1, 1, 2, 3])
         parts = []
